@@ -23,7 +23,11 @@ def http_scenarios(quick):
     combos = list(itertools.product(range(len(scripts)), range(len(bodies)), rctxs, range(len(pols)), ["none", "values"], ["roundtripper", "request"]))
     if quick:
         combos = combos[::11]
-    for si, bi, rc, pi, ec, via in combos:
+    # always: an early refusal (the server answers before reading the upload) against every replayable body kind
+    forced = [(si, bi, "background", 0, "none", via) for si in (len(scripts) - 2, len(scripts) - 1) for bi in range(len(bodies)) for via in ("roundtripper", "request")]
+    bodies.append(("stream", 600000))       # larger than what net/http's server drains on its own after an early answer
+    forced += [(si, len(bodies) - 1, "background", 0, "none", via) for si in (len(scripts) - 2, len(scripts) - 1) for via in ("roundtripper", "request")]
+    for si, bi, rc, pi, ec, via in forced + combos:
         if not pols[pi] and len(scripts[si]) > 1:
             continue
         out.append(dict(script=scripts[si], maxRetries=2, bodyKind=bodies[bi][0], bodySize=bodies[bi][1], reqCtx=rc, execCtx=ec, policies=pols[pi], via=via, grpc="", method="POST"))
